@@ -55,8 +55,9 @@ def verify_tree():
     dropped = set()
     dropped_contracts = set()
     ext_items = set()
-    for attempt in range(12):
-        b = vrun.build(force_assumed=forced, drop_ghost=sorted(dropped), drop_contract=sorted(dropped_contracts), external_items=sorted(ext_items))
+    ext_fns = set()
+    for attempt in range(16):
+        b = vrun.build(force_assumed=forced, drop_ghost=sorted(dropped), drop_contract=sorted(dropped_contracts), external_items=sorted(ext_items), external_fns=sorted(ext_fns))
         res = vrun.run_verus(b['text'])
         fails, tool = vrun.classify(res, b['text'], b['registry'])
         for f in fails:
@@ -72,7 +73,7 @@ def verify_tree():
         # that contains them is left unverified so that the rest of the crate is still examined
         unsupported_re = r'not supported|unsupported|does not yet support|not yet supported|must have a decreases clause|exec_allows_no_decreases_clause'
         comp = {t['fn'] for t in tool if (t.get('compile') or re.search(unsupported_re, t['msg'])) and t['fn'] in known} - forced
-        if any(t.get('compile') and t['fn'] not in known for t in tool):
+        if any((t.get('compile') or re.search(unsupported_re, t['msg'])) and t['fn'] not in known for t in tool):
             # a compile error outside every function under contract: if it sits in a ghost-addition item (a lemma or a
             # ghost impl that mentions something the edited tree no longer has), drop that item and try again - the
             # functions whose proofs used it then fail to compile themselves and are handled individually
@@ -87,12 +88,20 @@ def verify_tree():
                 continue
             new_ext = set()
             for t in tool:
-                if t.get('compile') and t['fn'] not in known:
+                if (t.get('compile') or re.search(unsupported_re, t['msg'])) and t['fn'] not in known:
                     mi = vrun.module_item_at(b['text'], t['line'])
                     if mi and mi not in ext_items:
                         new_ext.add(mi)
             if new_ext:
                 ext_items |= new_ext
+                for (m_, first_) in new_ext:
+                    mt = re.match(r'(?:pub(?:\([a-z]+\))?\s+)?(?:struct|enum)\s+(\w+)', first_)
+                    if mt:
+                        # the methods of a type left outside verification are outside it too (their signatures mention it)
+                        meth = {k_ for k_ in known if k_.startswith('%s::%s::' % (m_, mt.group(1)))}
+                        forced |= meth
+                        dropped_contracts |= meth
+                        ext_fns |= meth
                 continue
             comp = set()
             if not hard:
@@ -105,6 +114,11 @@ def verify_tree():
         again = {t['fn'] for t in tool if t.get('compile') and t['fn'] in forced and t['fn'] not in dropped_contracts}
         if again:
             dropped_contracts |= again
+            continue
+        # ... and a function without contract whose very signature mentions a type left outside verification
+        again2 = {t['fn'] for t in tool if t.get('compile') and t['fn'] in dropped_contracts and t['fn'] not in ext_fns}
+        if again2:
+            ext_fns |= again2
             continue
         if not hard and not comp:
             break
@@ -129,7 +143,7 @@ def verify_tree():
             if ok_seed is not None:
                 all_fail = [f for f in all_fail if f['fn'] != fn]
                 tool = [t for t in tool if t['fn'] != fn]
-    return {'build': b, 'failures': all_fail, 'tool': tool + [t for t in tool_hist if t not in tool], 'res': res, 'forced': sorted(forced), 'retried': retried, 'dropped_ghost': sorted(dropped), 'dropped_contracts': sorted(dropped_contracts), 'external_items': sorted(ext_items)}
+    return {'build': b, 'failures': all_fail, 'tool': tool + [t for t in tool_hist if t not in tool], 'res': res, 'forced': sorted(forced), 'retried': retried, 'dropped_ghost': sorted(dropped), 'dropped_contracts': sorted(dropped_contracts), 'external_items': sorted(ext_items), 'external_fns': sorted(ext_fns)}
 
 
 def fn_results(res):
